@@ -4,6 +4,7 @@ Monitor: call-boundary wrapper around parse / eval / list_names that records the
 is raised (BaseException included) + worker exit status (a worker killed by a signal is a violation).
 Oracle: failure category -> required class; the category is known by construction of the case.
 """
+import os
 import random
 
 from lib import gram
@@ -13,11 +14,16 @@ TECHNIQUE = 'runtime monitor: exception-class oracle per failure category (by co
 RULE = '(a) programs built to fail in exactly one listed way: a fault (undefined variable, undefined function in call/method/pipe spelling, missing key/index read, pop of an empty list, element-adding mutator at the 10000 cap, compound assignment to an undefined name or missing key/index, op budget) in every evaluated position of nested expression/statement contexts (top level, after/before other lines, lambda bodies driven by map/filter/reduce/sorted and host callbacks, ast_names bodies), one eval in five preceded by poisoning calls that bound exactly the names the fault leaves undefined and then failed; a faulting lambda in every argument position of every builtin under the swallowed-failure monitor; the op budget on small programs and on deep/long programs (150-900 levels) on plain and caching parsers; lexical errors (illegal characters incl. unnamed code points and lone surrogates, unterminated strings, lone CR) spliced into valid programs at every token gap; syntax errors by truncation at every token boundary, bracket removal and stray tokens; reserved words at every atom position. (b) arbitrary text (random Unicode from all planes, latin-1 byte salad, splices and mutants of programs, 10^5-char lines, 10^4-deep nesting), judged with the reference lexer/parser where they say the text is invalid, through parse, list_names and eval. Non-trivial = the call raised and its class was judged; distinct = distinct (entry point, source text).'
 RULE += ' Names mappings of the failing programs include defaultdict / __missing__ mappings (a name the mapping does not contain is undefined); every broken text is also parsed twice on a parser with a parse cache.'
 RULE += ' Statement contexts include a lambda failure swallowed by a host callback before the fault (the lambda parameters carry the names the fault leaves undefined); host containers include ChainMap, UserDict, MappingProxyType, OrderedDict, tuple, range, bytes, deque.'
+RULE += ' Coverage-guided texts: one atheris/libFuzzer process per worker (6 s quick, 150 s thorough) on the instrumented sandbox copy with the same oracle as the arbitrary-text family; every input on which it fired there is judged again by the worker.'
 ASSUMPTIONS = ['category is known by construction: the context evaluates the fault before anything else that could fail',
                'RecursionError and MemoryError are ordinary Exceptions (acceptable for (b))',
                'a worker process killed by a signal other than the harness watchdog counts as an interpreter crash']
 FINDINGS = {}
 CASE_DEADLINE = 30
+
+
+def case_deadline(case):
+    return case[2] + 200 if case[0] == 'cgf' else CASE_DEADLINE       # a coverage-guided fuzzing run lasts case[2] seconds by design
 JOURNAL = True
 DEATH_IS_VIOLATION = True
 
@@ -118,6 +124,9 @@ OPEN_OF = {'RPAREN': 'LPAREN', 'RBRACKET': 'LBRACKET', 'RBRACE': 'LBRACE'}
 def cases(ctx):
     rnd = ctx.rnd
     n = 0
+    if os.environ.get('C16_ONLY') == 'cgf':          # development aid (never set by a registered command): the coverage-guided stage alone
+        yield ('cgf', rnd.getrandbits(30), ctx.scale(6, 150))
+        return
     # ---- (a) evaluation-time categories
     single = [c for c in EXPR_CTX if '\n' not in c and '#' not in c]
     for cat, faults in EXPR_FAULTS.items():
@@ -182,6 +191,7 @@ def cases(ctx):
             continue
         yield ('prog', tuple(types), rnd.getrandbits(30), rnd.getrandbits(30))
     # ---- (b) arbitrary text
+    yield ('cgf', rnd.getrandbits(30), ctx.scale(6, 150))          # coverage-guided, one fuzzing process per worker
     for _ in range(ctx.scale(2500, 60000)):
         yield ('fuzz', rnd.getrandbits(48))
     if ctx.shard == 0:
@@ -267,6 +277,32 @@ def call(fn, *a, **k):
         return None
     except BaseException as e:
         return e
+
+
+def run_cgf(case, ctx):
+    """coverage-guided generation of texts (atheris / libFuzzer on the instrumented sandbox copy, lib/cgfuzz.py) for this check's oracle; every input on
+    which the oracle fired there is judged again here, by this worker's own monitors"""
+    from lib import cgdriver
+    _, seed, seconds = case
+    r = random.Random(seed)
+    seeds = ['x = [1, 2]\nx | map(v => v * 2)', 'f(1, {"a": b.c(d)}) if not x else y[1:2]', 'd["k"] += 1; del l[0]', '%a b% = r"\\d+" # c\n(p, q) => p ** -q', 'u += nope', 'l[99] -= 1',
+             '1 +', 'x = )', 'for x', '"abc', 'a $ b', 'pop([])', 'big.push(1)']
+    for i in range(12):
+        seeds.append(gram.render(gram.gen('code', r, r.randint(1, 5))[:60], r)[1])
+    out = cgdriver.run(ctx, 'c16', seed, seconds, seeds)
+    if out is None:
+        return
+    st, fired, _slow = out
+    for k in ('lexically_invalid', 'syntactically_invalid', 'valid'):
+        ctx.count('coverage_guided_texts_' + k, st.get(k, 0))
+    for k in st.get('raised', {}):
+        ctx.cov('exception_classes_seen_under_coverage_guidance', k)
+    for text in fired:
+        ctx.count('inputs_on_which_the_oracle_fired_in_the_fuzzing_process')
+        before = len(ctx.violations)
+        run_case(('text', text), ctx)
+        if len(ctx.violations) == before:
+            ctx.violation('coverage-guided fuzzing: the oracle fired in the fuzzing process but not when the input was judged again here', ('text', text), detail={'text': text[:300]})
 
 
 def run_case(case, ctx):
@@ -373,8 +409,10 @@ def run_case(case, ctx):
                     judge(ctx, case, 'parse (%s)' % rep, t2, e, PE, cat)
                 ctx.count('broken_texts_resubmitted_to_a_caching_parser')
             ctx.cov('categories', cat)
-    elif kind == 'fuzz':
-        text = fuzz_text(case[1])
+    elif kind == 'cgf':
+        run_cgf(case, ctx)
+    elif kind in ('fuzz', 'text'):
+        text = fuzz_text(case[1]) if kind == 'fuzz' else case[1]
         # the reference lexer / parser tell which failures are language-level by construction of the language, not of the implementation
         from lib import reflex, refparser
         lex_bad = syn_bad = False
